@@ -1,7 +1,7 @@
 (* C30 — property theorems only.  Each is closed by `exact <lemma>` and followed by Print Assumptions. *)
 From Coq Require Import List NArith Bool Arith Permutation.
 From Verif.Common Require Import Packet PolicyRef.
-From Verif.C30 Require Import Model Spec ProofsCidr ProofsRule ProofsTier.
+From Verif.C30 Require Import Model Spec ProofsCidr ProofsRule ProofsTier EndModel EndSpec EndProofsA EndProofsB EndProofsC.
 Import ListNotations.
 Open Scope N_scope.
 
@@ -88,6 +88,104 @@ Proof.
   vm_compute. repeat split; reflexivity.
 Qed.
 Print Assumptions c30_services_with_protocol_refuted.
+
+(* ENDPOINT LEVEL.  The rule list endpoint_mgr.go applies to an HNS endpoint: one GetPolicySetRules list per tier that
+   has policies for the direction, the profiles when the default tier has none, flattenTiers (combineRules /
+   combineCIDRs / combinePorts), rewritePriorities, the host rules and the node->endpoint rule, both directions in
+   one list.  With the repaired combinePorts (fixed = true, fixes/C30-combine-ports-empty-and-last-port.patch), for
+   every policy set in EndSpec.ep_domain for both directions (supported criteria, no staged policy, no Pass that
+   could leave the last rule list) and every IPv4 connection of either direction that does not come from one of the
+   node's own addresses: the switch rules evaluated by priority give exactly PolicyRef.endpoint_verdict (tiers in
+   order, Pass moves on, tier defaults, then the profiles, else deny) and the host layer allows.
+   _partial in one respect: `lists_wf` (every CIDR of the per-tier lists has length <= 32) is a checked hypothesis;
+   it follows from the well-formed inputs but that implication is not proved. *)
+Theorem c30_endpoint_same_verdict_partial : forall st chunk tiers profiles host nhp final inbound p,
+  ep_domain st chunk tiers profiles true = true -> ep_domain st chunk tiers profiles false = true ->
+  lists_wf st chunk tiers profiles true = true -> lists_wf st chunk tiers profiles false = true ->
+  endpoint_rules true st chunk tiers profiles host nhp = Some final ->
+  fits_prio final = true -> ep_packet_ok host inbound p = true ->
+  ep_gives final inbound p (ep_expected st tiers profiles inbound p) = true.
+Proof. exact endpoint_same_verdict. Qed.
+Print Assumptions c30_endpoint_same_verdict_partial.
+
+(* flattenTiers is sequential composition: the first match of the flattened list is the first match of the first
+   tier, and on Pass that of the following tiers; Pass in the last tier blocks.  (Every tier ends in a catch-all.) *)
+Theorem c30_flatten_is_sequential : forall inbound p tiers,
+  tiers <> [] -> Forall (wf_list inbound) tiers -> Forall (fun t => first_act inbound p t <> None) tiers ->
+  exists flat, flatten_tiers true tiers = Some flat /\ wf_list inbound flat
+               /\ first_act inbound p flat = seq_tiers (map (first_act inbound p) tiers).
+Proof. exact flatten_tiers_sem. Qed.
+Print Assumptions c30_flatten_is_sequential.
+
+(* combineRules is conjunction (or no rule when the conjunction is empty), and never panics once repaired *)
+Theorem c30_combine_rules_conjunction : forall inbound p r1 r2,
+  h_dir r1 = dir_of inbound -> h_dir r2 = dir_of inbound -> wf_h r1 -> wf_h r2 ->
+  match combine_rules true r1 r2 with
+  | CNil => hmatch inbound r1 p && hmatch inbound r2 p = false
+  | CPanic => False
+  | CRule h => hmatch inbound h p = hmatch inbound r1 p && hmatch inbound r2 p
+               /\ h_act h = h_act r2 /\ h_dir h = dir_of inbound /\ wf_h h
+  end.
+Proof. exact combine_rules_sem. Qed.
+Print Assumptions c30_combine_rules_conjunction.
+
+(* rewritePriorities (both branches: always increment / one priority per run of equal actions) keeps the list order
+   as priority order and changes nothing else *)
+Theorem c30_rewrite_priorities_order : forall inbound limit l, wf_list inbound l ->
+  BASE_PRIO + N.of_nat (length l) < U16 ->
+  (Nat.leb (length l) 1 = true -> rewrite_priorities limit l = l)
+  /\ (Nat.leb (length l) 1 = false -> pw (rewrite_priorities limit l))
+  /\ map strip (rewrite_priorities limit l) = map strip l.
+Proof. exact rewrite_priorities_spec. Qed.
+Print Assumptions c30_rewrite_priorities_order.
+
+(* FINDING: combinePorts as it is in the tree.  (a) `aBitset.Len() == 0` never holds, so a Pass rule for tcp/80 in
+   front of a tier allowing tcp/443 flattens to "allow tcp, any port": the connection to port 80 is allowed where the
+   policy denies it.  (b) with tcp/80 in both rules Felix panics ("bitset said no end of range"). *)
+Definition ex_t_pass80 : tierspec := mkTS false false [mkTP true true true (PS [RS Pass None (Some 6) [] [] [] [(80, 80)] [] [] []] [])].
+Definition ex_t_allow (port : N) : tierspec :=
+  mkTS true false [mkTP true true true (PS [RS Allow None (Some 6) [] [] [] [(port, port)] [] [] []] [])].
+Definition gives_of (o : option (list (rtype * hrule))) (p : packet) (a : hact) : bool :=
+  match o with Some final => ep_gives final true p a | None => false end.
+Theorem c30_combine_ports_unfixed_refuted :
+  (ep_domain [] CHUNK [ex_t_pass80; ex_t_allow 443] [] true = true
+   /\ ep_expected [] [ex_t_pass80; ex_t_allow 443] [] true (PK 6 1 2 40000 80) = HBlock
+   /\ gives_of (endpoint_rules false [] CHUNK [ex_t_pass80; ex_t_allow 443] [] [] true) (PK 6 1 2 40000 80) HAllow = true)
+  /\ endpoint_rules false [] CHUNK [ex_t_pass80; ex_t_allow 80] [] [] true = None
+  /\ gives_of (endpoint_rules true [] CHUNK [ex_t_pass80; ex_t_allow 80] [] [] true) (PK 6 1 2 40000 80) HAllow = true.
+Proof. Time vm_compute. repeat split; reflexivity. Time Qed.
+Print Assumptions c30_combine_ports_unfixed_refuted.
+
+(* FINDING: a Pass that leaves the last rule list becomes Block.  (a) profile [Pass] followed by profile [Allow]:
+   the reference moves on to the second profile and allows; (b) default tier [Pass] with profile [Allow]: the
+   reference falls through to the profiles; Windows blocks in both cases (also with the repaired combinePorts). *)
+Definition ex_prof_pass : polset := PS [RS Pass None None [] [] [] [] [] [] []] [].
+Definition ex_prof_allow : polset := PS [RS Allow None None [] [] [] [] [] [] []] [].
+Definition ex_default_pass : tierspec := mkTS true false [mkTP true true true ex_prof_pass].
+Theorem c30_pass_leaves_last_list_refuted :
+  (ep_expected [] [] [ex_prof_pass; ex_prof_allow] true (PK 6 1 2 3 4) = HAllow
+   /\ gives_of (endpoint_rules true [] CHUNK [] [ex_prof_pass; ex_prof_allow] [] true) (PK 6 1 2 3 4) HBlock = true)
+  /\ (ep_expected [] [ex_default_pass] [ex_prof_allow] true (PK 6 1 2 3 4) = HAllow
+      /\ gives_of (endpoint_rules true [] CHUNK [ex_default_pass] [ex_prof_allow] [] true) (PK 6 1 2 3 4) HBlock = true).
+Proof. Time vm_compute. repeat split; reflexivity. Time Qed.
+Print Assumptions c30_pass_leaves_last_list_refuted.
+
+(* Non-vacuity at endpoint level: two tiers (the first passes tcp/80-90 on to the default tier, which allows 85-443)
+   and a profile; in the domain for both directions, the flattened list combines the port lists. *)
+Definition ex_ep_tiers : list tierspec :=
+  [mkTS false true [mkTP true true true (PS [RS Pass None (Some 6) [C4 167772160 8] [] [] [(80, 90)] [] [] []; RS Deny None (Some 17) [] [] [] [] [] [] []]
+                                            [RS Allow None None [] [] [] [] [] [] []])];
+   mkTS true false [mkTP true true false (PS [RS Allow None (Some 6) [C4 167772160 16] [] [] [(85, 443)] [] [] []] [])]].
+Example c30_example_endpoint :
+  ep_domain ex_sets CHUNK ex_ep_tiers [PS [] []] true = true /\ ep_domain ex_sets CHUNK ex_ep_tiers [PS [] []] false = true
+  /\ lists_wf ex_sets CHUNK ex_ep_tiers [PS [] []] true = true /\ lists_wf ex_sets CHUNK ex_ep_tiers [PS [] []] false = true
+  /\ option_map (fun f => map (fun e => (h_prio (snd e), h_act (snd e), h_lports (snd e))) (filter (fun e => hdir_eqb (h_dir (snd e)) HIn) f))
+                 (endpoint_rules true ex_sets CHUNK ex_ep_tiers [PS [] []] [] true)
+     = Some [(1000, HAllow, [(85, 90)]); (1001, HBlock, [(80, 90)]); (1002, HBlock, []); (1003, HAllow, [(85, 443)]);
+             (1004, HBlock, []); (0, HAllow, [])]
+  /\ map (ep_expected ex_sets ex_ep_tiers [PS [] []] true) [PK 6 167772161 5 1 85; PK 6 167772161 5 1 80; PK 17 1 5 1 1; PK 1 1 5 0 0]
+     = [HAllow; HBlock; HBlock; HBlock].
+Proof. Time vm_compute. Time (repeat split; reflexivity). Time Qed.
 
 (* Non-vacuity: a two-policy inbound tier with a CIDR+IP-set intersection, three port entries, chunk size 2
    (so the first rule is split), a services rule on the egress side, and priority bumps. *)
